@@ -1,19 +1,26 @@
 """C07 - decimal literals are read exactly (number parser and query language agree with the spelling)."""
 import json, time
 from fractions import Fraction
-from core import build, exact
+from core import build, exact, boundary
 from core.driver import Driver
 from core.run import Acc, finish, rng_for, run_shards, NCPU
 
 PID = "C07"
 SYMBOLS = "017+-.eE%"
-RULE = ("exhaustive: every string up to the stated length over {0,1,7,+,-,.,e,E,%} is enumerated in-process; the well-formed "
+RULE = ("exhaustive: every string up to the stated length over {0,1,7,+,-,.,e,E,%} is enumerated in-process (of the literals whose exponent has five "
+        "or more significant digits - 1e777777 costs seconds - every 64th is executed and the rest is counted); the well-formed "
         "literals ([+-]? (D+ ('.' D*)? | '.' D+) ([eE] [+-]? D+)? '%'?) are read by str::parse::<Rational> and as a query and both "
         "compared with an independent reader on BigInt (digit string shifted by fraction length and exponent); a sample is "
         "re-judged by a second oracle in Python (Fraction). random: literals with up to hundreds of digits / exponents to +-400. "
         "non-trivial = distinct literal that is not a plain unsigned integer without leading zero (exhaustive part: distinct values read)")
 
 def gen_long(rng, max_digits, max_exp):
+    if rng.random() < 0.1:
+        # machine-word / limb boundaries (2^64, 2^128, 10^19 ...) as plain, pointed, exponent and padded literals
+        t = boundary.literal(rng)
+        if rng.random() < 0.1:
+            t += "%"
+        return t
     nd = rng.choice([1, 2, 5, 17, 40, rng.randint(1, max_digits)])
     i = "".join(rng.choice("0123456789") for _ in range(nd))
     if rng.random() < 0.3:
@@ -86,7 +93,7 @@ def run(tier, seed):
     done = {}
     for kind, L in plans:
         with Driver(bins[kind]) as d:
-            rep = d.call({"op": "c07_sweep", "symbols": SYMBOLS, "max_len": L, "sample_every": 400, "threads": NCPU}, timeout=6 * 3600)
+            rep = d.call({"op": "c07_sweep", "symbols": SYMBOLS, "max_len": L, "sample_every": 400, "threads": NCPU, "max_exp_digits": 4}, timeout=6 * 3600)
         if "well_formed" not in rep:
             acc.inconc(repr(rep)[:300])
             continue
@@ -94,6 +101,7 @@ def run(tier, seed):
         acc.count("strings_enumerated", rep["strings"])
         acc.count("well_formed_literals_" + kind, rep["well_formed"])
         acc.count("with_percent", rep["with_percent"])
+        acc.count("exponents_of_5_or_more_digits_not_executed_(1_in_64_is)", rep.get("huge_exponent_skipped", 0))
         acc.count("parser_checked", rep["parser_checked"])
         acc.count("query_checked", rep["query_checked"])
         done["%s:len<=%d" % (kind, L)] = rep["well_formed"]
